@@ -100,8 +100,9 @@ def handleKey [DecidableEq A] (tf : TF A) (ev : KeyEv A) : TF A × List (Call A)
     (reset tf, [.submit tf.value])
   else (tf, [])
 
-/-- The cursor column of `Draw`: `ctx.Characters(tf.Value)` are the clusters with their widths. -/
-def drawCursorCol (width : List A → Nat) (tf : TF A) : UInt16 :=
-  VaxisModel.Model.TextField.drawCursorCol width ⟨cl tf.value, tf.cursor, tf.n⟩
+/-- The cursor column of `Draw`: the loop over the clusters of `tf.Value`, each drawn as the
+characters `ctx.Characters(cluster)` (`chars` = their widths). -/
+def drawCursorCol (chars : List A → List Nat) (tf : TF A) : UInt16 :=
+  VaxisModel.Model.TextField.drawCursorCol chars ⟨cl tf.value, tf.cursor, tf.n⟩
 
 end VaxisModel.Model.TextFieldCl
